@@ -14,7 +14,8 @@ def run(ctx):
         res = [T.deps_record_rule(m["ts_rs_macros"], "C03"), L.visit_agreement_rule(m["ts_rs"], "C03", rule="C03.R2"),
                MM.import_shape_rule(m["ts_rs"], "C03"), MM.same_relation_rule(m["ts_rs"], "C03")]
         if fs == "default":
-            res = [T.pairing_rule(ctx.syn, "C03"), T.selector_rule(ctx.syn, "C03", rule="C03.R1b")] + res
+            res = [T.pairing_rule(ctx.syn, "C03"), T.selector_rule(ctx.syn, "C03", rule="C03.R1b"),
+                   T.deps_emission_rule(ctx.syn, m["ts_rs_macros"], "C03", "C03.R6")] + res
         else:
             for r in res:
                 r.rule += "@" + fs
